@@ -168,16 +168,25 @@ def counterexample(name, desc=None, unwind=None, timeout_s=600):
     gf = _goto_file(name)
     if not gf:
         return None, 'goto binary of %s not found' % name
-    cmd = ['cbmc', '--no-malloc-may-fail', '--no-undefined-shift-check', '--no-signed-overflow-check',
-           '--no-div-by-zero-check', '--no-self-loops-to-assumptions', '--no-pointer-primitive-check',
-           '--object-bits', '16', '--sat-solver', 'cadical', '--slice-formula', gf, '--trace', '--json-ui']
+    base = ['cbmc', '--no-malloc-may-fail', '--no-undefined-shift-check', '--no-signed-overflow-check',
+            '--no-div-by-zero-check', '--no-self-loops-to-assumptions', '--no-pointer-primitive-check',
+            '--object-bits', '16', '--sat-solver', 'cadical', gf, '--trace', '--json-ui']
     if unwind:
-        cmd += ['--unwind', str(unwind)]
-    try:
-        p = subprocess.run(cmd, capture_output=True, text=True, timeout=timeout_s, preexec_fn=_limit)
-        data = json.loads(p.stdout)
-    except Exception as e:
-        return None, 'cbmc trace run failed: %s' % e
+        base += ['--unwind', str(unwind)]
+    data, err = None, ''
+    # without formula slicing every kani::any() value is in the trace (what concrete playback needs); if that is
+    # too expensive fall back to the sliced formula (values irrelevant to the failure are then missing and the
+    # playback may not line up — the replay file says so)
+    for extra, t in ((['--no-slice-formula'] if False else [], min(timeout_s, 240)), (['--slice-formula'], timeout_s)):
+        try:
+            p = subprocess.run(base + extra, capture_output=True, text=True, timeout=t, preexec_fn=_limit)
+            data = json.loads(p.stdout)
+            sliced = bool(extra)
+            break
+        except Exception as e:
+            err = str(e)[:200]
+    if data is None:
+        return None, 'cbmc trace run failed: %s' % err
     best = None
     for item in data:
         for r in item.get('result', []) if isinstance(item, dict) else []:
@@ -213,7 +222,7 @@ def counterexample(name, desc=None, unwind=None, timeout_s=600):
     for b in vals:
         lines.append('        vec![%s],' % ', '.join(str(x) for x in b))
     lines += ['    ];', '    kani::concrete_playback_run(concrete_vals, %s);' % fnname, '}']
-    return '\n'.join(lines) + '\n', 'values read from the trace of: ' + best.get('description', '')
+    return '\n'.join(lines) + '\n', ('values read from the %strace of: ' % ('sliced ' if sliced else '')) + best.get('description', '')
 
 
 def _bytes_of(v):
